@@ -47,7 +47,8 @@ def run(ctx, pid, imports, items, extra_defs=None):
                 continue
             gen += pysrc.translate(repo, it["file"], it["qualname"], it["name"], it["params"], it["rettype"],
                                    calls=it.get("calls"), consts=it.get("consts"), self_attrs=it.get("self_attrs"),
-                                   state=it.get("state", ()), attrs=it.get("attrs"))
+                                   state=it.get("state", ()), attrs=it.get("attrs"), opaque_exprs=it.get("opaque_exprs"),
+                                   opaque_bools=it.get("opaque_bools"))
             ctx.count("srctie:translated")
         except (pysrc.Unsupported, SyntaxError, OSError) as e:
             failed_fn.append((it, str(e)))
